@@ -37,6 +37,7 @@ import (
 // This only affects TCP connections, it does not swap the logical database currently
 // being used by the embedded API.
 func (server *SugarDB) SwapDBs(database1, database2 int) {
+	verifPoint("ks.swapDBs")
 	// If the databases are the same, skip the swap.
 	if database1 == database2 {
 		return
@@ -77,6 +78,7 @@ func (server *SugarDB) SwapDBs(database1, database2 int) {
 // Flush flushes all the data from the database at the specified index.
 // When -1 is passed, all the logical databases are cleared.
 func (server *SugarDB) Flush(database int) {
+	verifPoint("ks.flush")
 	server.storeLock.Lock()
 	defer server.storeLock.Unlock()
 
@@ -137,6 +139,7 @@ func (server *SugarDB) releaseDatabaseMemory(database int) {
 }
 
 func (server *SugarDB) keysExist(ctx context.Context, keys []string) map[string]bool {
+	verifPoint("ks.keysExist")
 	server.storeLock.RLock()
 	defer server.storeLock.RUnlock()
 
@@ -157,6 +160,7 @@ func (server *SugarDB) keysExist(ctx context.Context, keys []string) map[string]
 }
 
 func (server *SugarDB) getExpiry(ctx context.Context, key string) time.Time {
+	verifPoint("ks.getExpiry")
 	server.storeLock.RLock()
 	defer server.storeLock.RUnlock()
 
@@ -175,6 +179,7 @@ func (server *SugarDB) getExpiry(ctx context.Context, key string) time.Time {
 }
 
 func (server *SugarDB) getValues(ctx context.Context, keys []string) map[string]interface{} {
+	verifPoint("ks.getValues")
 	server.storeLock.Lock()
 	defer server.storeLock.Unlock()
 
@@ -228,6 +233,7 @@ func (server *SugarDB) getValues(ctx context.Context, keys []string) map[string]
 }
 
 func (server *SugarDB) setValues(ctx context.Context, entries map[string]interface{}) error {
+	verifPoint("ks.setValues")
 	server.storeLock.Lock()
 	defer server.storeLock.Unlock()
 
@@ -300,6 +306,7 @@ func (server *SugarDB) setValues(ctx context.Context, entries map[string]interfa
 }
 
 func (server *SugarDB) setExpiry(ctx context.Context, key string, expireAt time.Time, touch bool) {
+	verifPoint("ks.setExpiry")
 	server.storeLock.Lock()
 	defer server.storeLock.Unlock()
 
@@ -418,6 +425,7 @@ func (server *SugarDB) createDatabase(database int) {
 }
 
 func (server *SugarDB) getState() map[int]map[string]interface{} {
+	verifPoint("ks.getState")
 	// Wait unit there's no state mutation or copy in progress before starting a new copy process.
 	for {
 		if !server.stateCopyInProgress.Load() && !server.stateMutationInProgress.Load() {
@@ -717,6 +725,7 @@ func (server *SugarDB) evictKeysWithExpiredTTL(ctx context.Context) error {
 		deletedCount := 0
 
 		// Loop through the keys and delete them if they're expired
+		verifPoint("ks.sweep")
 		server.storeLock.Lock()
 		now := server.clock.Now()
 		for _, k := range keys {
@@ -754,6 +763,7 @@ func (server *SugarDB) evictKeysWithExpiredTTL(ctx context.Context) error {
 }
 
 func (server *SugarDB) randomKey(ctx context.Context) string {
+	verifPoint("ks.randomKey")
 	server.storeLock.RLock()
 	defer server.storeLock.RUnlock()
 
